@@ -408,6 +408,12 @@ func init() {
 			RA := lbase + A
 			B := int(inst & 0x1ff) //GETB
 			unaryv := L.rkValue(B)
+			if str, ok := unaryv.(LString); ok {
+				// a string that is a numeral is a number here; __unm is for the rest
+				if num, err := parseNumber(string(str)); err == nil {
+					unaryv = num
+				}
+			}
 			if nm, ok := unaryv.(LNumber); ok {
 				// +inline-call reg.Set RA -nm
 			} else {
@@ -957,6 +963,24 @@ func objectArith(L *LState, opcode int, lhs, rhs LValue) LValue {
 	case OP_POW:
 		event = "__pow"
 	}
+	// operands that are numbers or numerals are computed with; a handler is only
+	// looked for when one of them is neither
+	nlhs, nrhs := lhs, rhs
+	if str, ok := lhs.(LString); ok {
+		if lnum, err := parseNumber(string(str)); err == nil {
+			nlhs = lnum
+		}
+	}
+	if str, ok := rhs.(LString); ok {
+		if rnum, err := parseNumber(string(str)); err == nil {
+			nrhs = rnum
+		}
+	}
+	if v1, ok1 := nlhs.(LNumber); ok1 {
+		if v2, ok2 := nrhs.(LNumber); ok2 {
+			return numberArith(L, opcode, LNumber(v1), LNumber(v2))
+		}
+	}
 	op := L.metaOp2(lhs, rhs, event)
 	if op != LNil {
 		L.reg.Push(op)
@@ -965,21 +989,7 @@ func objectArith(L *LState, opcode int, lhs, rhs LValue) LValue {
 		L.Call(2, 1)
 		return L.reg.Pop()
 	}
-	if str, ok := lhs.(LString); ok {
-		if lnum, err := parseNumber(string(str)); err == nil {
-			lhs = lnum
-		}
-	}
-	if str, ok := rhs.(LString); ok {
-		if rnum, err := parseNumber(string(str)); err == nil {
-			rhs = rnum
-		}
-	}
-	if v1, ok1 := lhs.(LNumber); ok1 {
-		if v2, ok2 := rhs.(LNumber); ok2 {
-			return numberArith(L, opcode, LNumber(v1), LNumber(v2))
-		}
-	}
+	lhs, rhs = nlhs, nrhs
 	L.RaiseError(fmt.Sprintf("cannot perform %v operation between %v and %v",
 		strings.TrimLeft(event, "_"), lhs.Type().String(), rhs.Type().String()))
 
